@@ -425,6 +425,72 @@ def stage_hsm_import(ctx):
                 undo()
 
 
+def stage_scan(ctx, e):
+    """recursive import (scan) requests for directory paths in canonical, dotted and escaping spellings over the adversarial
+    tree: whatever is registered has canonical acquisition and file names that name a regular, importable file under the
+    root; nothing that must never be imported is; nothing outside the root is touched"""
+    import alpenhorn.daemon.update as upd
+    from alpenhorn.scheduler import FairMultiFIFOQueue
+    rng = ctx.rng
+    forms = ["acq", "acq/sub", "acq/deep", ".", "acq/.dotdir", "acq/../acq", "./acq", "acq/sub/..", "acq//sub", "acq/sub/../deep",
+             "acq/./sub", "acq/", "..", "/abs", "acq/../../x", "acq/linkdir", "acq/indir", "nothing/../acq"]
+    for form in forms:
+        for register in (True, False):
+            w = worldmod.World(e)
+            db = w.db
+            for m in (db.StorageTransferAction, db.ArchiveFileCopyRequest, db.ArchiveFileImportRequest, db.ArchiveFileCopy,
+                      db.ArchiveFile, db.ArchiveAcq, db.StorageNode, db.StorageGroup):
+                m.delete().execute()
+            import shutil
+            shutil.rmtree(os.path.join(e.tmp, "roots"), ignore_errors=True)
+            g = w.group("g")
+            node = w.node("n", g)
+            root = node.root
+            outside = root.rstrip("/") + "-old"
+            shutil.rmtree(outside, ignore_errors=True)
+            tree = build_tree(e, rng, root, outside)
+            verif_idext.MODE[:] = ["first", 1]
+            if not register:
+                # registration off: only files already registered may gain a copy
+                acq = w.acq("acq")
+                db.ArchiveFile.create(acq=acq, name="sub/b.dat", size_b=4, md5sum=worldmod.md5(b"bbbb"))
+            e.set_host("h1")
+            q = FairMultiFIFOQueue()
+            un = upd.UpdateableNode(q, db.StorageNode.get(id=node.id))
+            req = db.ArchiveFileImportRequest.create(node=node, path=form, recurse=True, register=register)
+            outside_before = open(os.path.join(outside, "secret.dat"), "rb").read()
+            try:
+                un.update_import()
+                for _ in range(80):
+                    item = q.get(timeout=0.001)
+                    if item is None:
+                        break
+                    item[0]()
+                    q.task_done(item[1])
+            except Exception as ex:  # noqa
+                ctx.violation("scan:raised", f"a recursive import request for {form!r} raised {type(ex).__name__}: {ex}",
+                              {"kind": "scan", "form": form, "register": register})
+                continue
+            regs = [(f.acq.name, f.name) for f in db.ArchiveFile.select()]
+            copies = [(c.file.acq.name, c.file.name) for c in db.ArchiveFileCopy.select()]
+            ctx.count(f"scan:{'canonical' if posixpath.normpath(form) == form and not form.startswith(('/', '..')) else 'odd'}:{'some' if copies else 'none'}")
+            ctx.case(("scan", form, register), nontrivial=True, sample={"request_path": form, "register": register, "copies": copies[:6]} if form == "acq/../acq" else None)
+            for a, n in set(regs) | set(copies):
+                for what, name in (("acquisition", a), ("file", n)):
+                    if name != posixpath.normpath(name) or name.startswith(("/", "..")) or "/../" in "/" + name + "/" or name in ("", "."):
+                        ctx.violation("scan:non-canonical-name", f"recursive import request {form!r}: {what} name {name!r} registered "
+                                      f"(records {a!r} / {n!r}) is not a canonical relative path", {"kind": "scan", "form": form})
+                rel = posixpath.normpath(posixpath.join(a, n))
+                kind = tree.get(rel)
+                if (a, n) in copies and kind not in ("regular", "via-inside-symlink"):     # (a directory symlink staying inside the root is followed)
+                    ctx.violation("scan:never-import", f"recursive import request {form!r} gave a copy to {rel!r}, which is {kind or 'not in the tree'}",
+                                  {"kind": "scan", "form": form, "rel": rel})
+            if not register and any(x != ("acq", "sub/b.dat") for x in regs):
+                ctx.violation("scan:registered-without-permission", f"registration was off but {regs} are registered", {"kind": "scan", "form": form})
+            if open(os.path.join(outside, "secret.dat"), "rb").read() != outside_before or not os.path.isdir(root):
+                ctx.violation("scan:outside", "a recursive import touched something outside the root (or the root)", {"kind": "scan", "form": form})
+
+
 def run(ctx):
     ok = common.proof_stage(ctx, MODULE)
     rng = ctx.rng
@@ -451,6 +517,8 @@ def run(ctx):
     with envmod.Env(dbfile=True) as e2:
         stage_race(ctx, e2)
     stage_hsm_import(ctx)
+    with envmod.Env() as e3:
+        stage_scan(ctx, e3)
     ctx.coverage["rule"] = ("a fixed adversarial tree per case (regular files incl. nested and dot-directories, dot-files, lock file, placeholder, "
                             "symlinks to inside/outside files, symlinked directories to inside/outside, a directory, the marker, an absent "
                             "path) x request form (import request rel/abs/dotted/non-canonical, watchdog-style absolute event incl. outside "
